@@ -2,6 +2,7 @@
    Each is closed by `exact <lemma>` and followed by Print Assumptions (audited by ./check on every run). *)
 From V.lib Require Import Base.
 From V.c05 Require Import C05Model C05FragModel C05GhostProofs C05RoundProofs C05SegModel C05SegProofs.
+From V.c05 Require Import C05CodecModel C05CodecProofs C05OptProofs C05ReadProofs C05SegCodecModel C05SegCodecProofs.
 
 (* DecodeFile / DecodeFileSR on the box stream of a segment (nothing or styp followed by any sidx boxes, then the
    fragments, each with emsg / ignored boxes before its moof, after its mdat and between the fragments, ANY sizes)
@@ -83,3 +84,84 @@ Proof.
   split; [repeat constructor; vm_compute; reflexivity|].
   split; [vm_compute; reflexivity|]. split; vm_compute; reflexivity.
 Qed.
+
+(* ---------------------------------------------------------------- byte level: framing around tfhd / trun *)
+
+(* tfdt: SetBaseMediaDecodeTime selects version 0 / 1 by value; DecodeTfdtSR of the written body gives it back *)
+Theorem C05_tfdt_codec : forall t,
+  t < 18446744073709551616 -> dec_tfdt (tfdt_body (set_base t)) = Ok (set_base t) /\
+                              enc_tfdt (set_base t) = box T_TFDT (tfdt_body (set_base t)).
+Proof. exact tfdt_codec. Qed.
+Print Assumptions C05_tfdt_codec.
+
+(* the whole byte string Fragment.Encode writes for a fragment without boxes before the moof / after the mdat and
+   without extra children in moof and trafs (enc_fragment = moof ++ mdat, byte for byte as compared with
+   MoofBox.Encode by the correspondence): parsing it box by box (box headers incl. the 16-byte large-size mdat
+   header, mfhd, traf children tfhd / tfdt v0 or v1 / truns) gives the moof in wire view and the mdat payload *)
+Theorem C05_fragment_codec : forall seq fe bytes,
+  frag_codec_wf fe = true -> seq < 4294967296 -> mdat_wf (fr_mdat fe) = true ->
+  enc_fragment seq fe = Ok bytes ->
+  dec_top (length bytes) bytes =
+    Ok [BMoof (moof_size fe) (wire_dmoof seq fe); BMdat (md_header_size (fr_mdat fe)) (md_written (fr_mdat fe))].
+Proof. exact dec_enc_fragment. Qed.
+Print Assumptions C05_fragment_codec.
+
+(* C05_roundtrip end to end on the real byte string of one fragment (fields within their wire widths:
+   frag_codec_wf, which also excludes the truns DecodeTrun refuses, see C05_optimized_trun_refuted) *)
+Theorem C05_roundtrip_bytes : forall tracks post ops cs fr opt fe seq bytes pos0 tx,
+  NoDup tracks -> N.of_nat (length ops) < 4294967296 -> forallb is_full_to ops = true ->
+  Forall (fun o => sized_f (op_full o)) ops ->
+  run_ops (with_extras (create_multi tracks) 0 0 post []) ops = (cs, Some fr) ->
+  encode_frag opt fr = Ok fe ->
+  moof_size fe + md_header_size (fr_mdat fe) + lenN (md_data (fr_mdat fr)) < 2147483648 ->
+  pos0 < 4611686018427387904 ->
+  consistent (added_fulls tracks (tx_track tx) ops) ->
+  frag_codec_wf fe = true -> seq < 4294967296 ->
+  enc_fragment seq fe = Ok bytes ->
+  exists m payload d,
+    dec_top (length bytes) bytes = Ok [BMoof (moof_size fe) m; BMdat (md_header_size (fr_mdat fe)) payload] /\
+    bytes_view m payload pos0 (moof_size fe) (md_header_size (fr_mdat fe)) = Some d /\
+    get_full_samples d (Some tx) = Ok (added_fulls tracks (tx_track tx) ops).
+Proof. exact roundtrip_bytes. Qed.
+Print Assumptions C05_roundtrip_bytes.
+
+(* the guard in frag_codec_wf / trun_wf is needed: with optimisation, more than 1024 samples of equal duration,
+   size and flags and zero composition offsets are written as a trun that DecodeTrun refuses (known finding C05-F7) *)
+Theorem C05_optimized_trun_refuted : exists tf tr tf' tr',
+  all_present tr = true /\ forallb sample_wf (tr_samples tr) = true /\
+  optimize tf tr = Ok (tf', tr') /\
+  dec_trun (trun_size (tr_with_doff tr' 100)) (enc_trun_body (tr_with_doff tr' 100)) = Err.
+Proof. exact big_uniform_refuted. Qed.
+Print Assumptions C05_optimized_trun_refuted.
+
+(* hypotheses of C05_roundtrip_bytes are satisfiable: two tracks, three runs, optimisation on, a decode time that
+   needs tfdt version 1; the bytes are computed and decoded by computation as well *)
+Example C05_roundtrip_bytes_ex :
+  let s k := mkSample 16842752 10 k 0 in
+  let ops := [OFullTo 2 (s 1) 4294967296 [1]; OFullTo 2 (s 2) 4294967306 [2;3]; OFullTo 1 (s 1) 0 [4]; OFullTo 2 (s 1) 4294967316 [5]] in
+  exists fr fe bytes,
+    run_ops (with_extras (create_multi [1; 2]) 0 0 0 []) ops = ([COk; COk; COk; COk], Some fr) /\
+    encode_frag true fr = Ok fe /\ frag_codec_wf fe = true /\ enc_fragment 7 fe = Ok bytes /\
+    length bytes = 245%nat /\
+    exists m payload, dec_top (length bytes) bytes = Ok [BMoof (moof_size fe) m; BMdat 8 payload] /\ payload = [1;2;3;4;5] /\
+                      dm_seq m = Some 7.
+Proof.
+  eexists; eexists; eexists. split; [vm_compute; reflexivity|]. split; [vm_compute; reflexivity|].
+  split; [vm_compute; reflexivity|]. split; [vm_compute; reflexivity|]. split; [vm_compute; reflexivity|].
+  eexists; eexists. split; [vm_compute; reflexivity|]. split; reflexivity.
+Qed.
+
+(* (c) mixed data modes in one fragment (metadata-only additions mixed with full samples or intervals) are REFUTED:
+   the fragment encodes, but either the mdat header does not announce the bytes that follow it (the stream is not a
+   sequence of boxes) or the samples read back are not the ones added.  Reproduced on the real code: known finding
+   C05-F8; the positive theorems state one data mode per fragment. *)
+Theorem C05_mixed_modes_refuted :
+  (exists ops fr fe lz,
+     run_ops (create_fragment 1) ops = ([COk; COk], Some fr) /\ encode_frag false fr = Ok fe /\
+     lenN lz = 2 /\ item_framed (mkEitem [] fe [] lz []) = false) /\
+  (exists ops fr fe,
+     run_ops (create_fragment 1) ops = ([COk; COk], Some fr) /\ encode_frag false fr = Ok fe /\
+     item_framed (mkEitem [] fe [] [] []) = true /\
+     seg_get_full (item_dfr 0 (mkEitem [] fe [] [] [])) None <> Ok [mkFull (mkSample 0 10 2 0) 0 [1; 2]; mkFull (mkSample 0 10 3 0) 10 [7; 8; 9]]).
+Proof. exact mixed_modes_refuted. Qed.
+Print Assumptions C05_mixed_modes_refuted.
